@@ -653,7 +653,7 @@ def run(prop, tier, sd, rep, clauses, modes):
         for sig, occ in sorted(dsigs.items()):
             if sig in real_sigs:
                 continue      # already decided on real executions
-            cand = [dbyid[o[0]] for o in occ[:3]]
+            cand = [dbyid[i] for i in list(dict.fromkeys(o[0] for o in occ))[:3]]
             got, ran = real_signatures(w, cli, cand, prop, clauses, modes, sd, maxruns, 'd%d' % (abs(hash(sig)) % 10000))
             if sig in got:
                 rep.found(sig, '%s on declaration %s (found by TLC on the program PLANNED by Planner.tla for every small declaration, '
